@@ -79,9 +79,9 @@ func init() {
 		ID: "C03", Harness: "eng", Inst: storagePkgs, Level: "exploration", Classes: []string{"C03:"},
 		Cfgs: []cfgSpec{
 			{Name: "delete-vs-background", Cfg: "clients=3,wdel=5,wdm=1,wsnap=3,noreopen,stallden=400", Gating: true, Share: 4},
-			{Name: "delete-then-reopen", Cfg: "clients=2,wdel=5,wdm=1", Gating: true, Share: 2},
+			{Name: "delete-then-reopen", Cfg: "clients=2,wdel=5,wdm=1,wsnaprace=3", Gating: true, Share: 2},
 			{Name: "delete-then-crash", Cfg: "clients=1,wdel=5,wdm=1,imgcap=6,cutden=40,noreopen,nosettle", Gating: true, Share: 2},
-			{Name: "concurrent-writers-snapshots-deletes-then-crash", Cfg: "clients=3,wdel=5,wdm=1,wsnap=4,imgcap=6,cutden=40,noreopen,nosettle,stallden=400", Gating: true, Share: 2},
+			{Name: "concurrent-writers-snapshots-deletes-then-crash", Cfg: "clients=3,wdel=5,wdm=1,wsnap=4,wsnaprace=6,imgcap=8,cutden=40,noreopen,nosettle,stallden=400", Gating: true, Share: 3},
 		},
 		QuickSecs: 60, ThoroughSecs: 900, MaxRunsPerProc: 200,
 		Rule:   "one case = one generated multi-client write/delete/read/snapshot/compaction program under one seeded schedule (plus sampled crash images in the crash configuration); non-trivial = at least 4 operations and one context switch; distinct = distinct hash of (operations, context-switch sequence, crash cuts)",
